@@ -333,7 +333,7 @@ func init() {
 				}
 				var args []ugo.Object
 				if fc.Class == "random-program" {
-					args = []ugo.Object{pool[r.Intn(len(pool))], pool[r.Intn(len(pool))]}
+					args = []ugo.Object{argPool()[r.Intn(len(pool))], argPool()[r.Intn(len(pool))]}
 				}
 				line, impl, steps := failOne(c, fc.Src, fc.Class, fc.Wrap, fc.Host, r.Bool(), args)
 				if impl == "" {
